@@ -4,11 +4,17 @@
 
   Full-strength statement (`CommitCorrect`): for well-formed old/new builds and the work lists recorded by the
   patching phase, `commit` applied to the tree holding exactly the old build succeeds and yields a tree that
-  holds exactly the new build, whatever the two visiting orders are.  It is FALSE without `NoKindClash`
-  (finding F8: a path whose kind changes between builds makes commit fail; four shapes are recorded as known
-  findings — the fourth has been repaired since, finding F27, and so have the first two, see
-  Props/C02Kinds.lean), so what is proved is
-  `commit_correct_partial`, which adds that hypothesis.
+  holds exactly the new build, whatever the two visiting orders are.  It used to be FALSE without `NoKindClash`
+  (finding F8: a path whose kind changes between builds made commit fail; four shapes were recorded).  All four
+  have been repaired since (findings F27, F8 (1)/(2), and F8 (3): a file that becomes a directory while another
+  path is a copy of it now steps aside first, `Commit.moveSourcesAside`), and with ONE more hypothesis — the new
+  directories are listed parents first, `DirOrder`, which `tlc.Walk` guarantees — the statement is PROVED:
+  `commit_correct` in Props/C02Kinds.lean.  Without `DirOrder` the MODEL (which takes the directories as a list
+  in any order) still fails on one instance (`g9_*`, `commitCorrect_false_9` there); no instance with well-formed
+  builds and `DirOrder` fails, and the former machine-checked counterexample `commit_correct_counterexample`
+  (F8 (3)) is gone: on that instance the commit now succeeds (`commit_f8_3_repaired` below; that it yields
+  exactly the new build is `f8_3_ok` in Props/C02Kinds.lean).  `commit_correct_partial` below, with the much
+  stronger `NoKindClash`, is kept; it is a corollary (`commit_correct_partial_of_kinds`).
 
   Status: all three stages (`commit_correct_notransp_nosym_partial`, `commit_correct_notransp_partial`,
   `commit_correct_partial`) are proved, with the hypotheses `BuildWF`, `NoKindClash`, `WorkOK`, the two orders
@@ -77,7 +83,8 @@ def sourcesOf (old new : Build) (w : Work) : List Path :=
 /-- The tree holds exactly build `b`. -/
 def Holds (t : Tree) (b : Build) : Prop := ∀ p, t.get p = (treeOfBuild b).get p
 
-/-- Full-strength statement (not provable: see F8). -/
+/-- Full-strength statement.  With the parents-first listing of the new directories as one more hypothesis it is
+    `commit_correct` (Props/C02Kinds.lean); without it the model fails on `g9_*` there. -/
 def CommitCorrect : Prop :=
   ∀ (old new : Build) (w : Work) (order₁ order₂ : List Path),
     BuildWF old → BuildWF new → WorkOK old new w →
@@ -338,16 +345,18 @@ theorem commit_f8_1_repaired :
      | .ok _ => true | .error _ => false) = true := by
   decide +kernel
 
-/-- F8 witness (machine-checked), shape (3): a file that becomes a directory holding that very file renamed makes
-    commit fail in the model as in the code (the file is cleared by `ensureDirs` before the transposition reads
-    it). -/
+/-- F8 shape (3): a file that becomes a directory holding that very file renamed.  This used to be the F8 witness
+    `commit_correct_counterexample` (the file was cleared by `ensureDirs` before the transposition read it, and
+    the commit failed, EISDIR, in the model as in the code); since the repair of F8 (3) the file steps aside first
+    (`moveSourcesAside`) and the commit SUCCEEDS (that it yields exactly the new build is `f8_3_ok` in
+    Props/C02Kinds.lean, and follows from `commit_correct`). -/
 def exF8cOld : Build := { files := [(["f"], [1]), (["k"], [3])] }
 def exF8cNew : Build := { dirs := [["f"]], files := [(["f", "inner"], [1]), (["k"], [3])] }
 
-theorem commit_correct_counterexample :
+theorem commit_f8_3_repaired :
     (match commit exF8cOld exF8cNew { transpositions := [(0, 0), (1, 1)] } [["f"], ["k"]] [["f"], ["k"]]
         (treeOfBuild exF8cOld) with
-     | .ok _ => true | .error _ => false) = false := by
-  decide
+     | .ok _ => true | .error _ => false) = true := by
+  decide +kernel
 
 end Wharf.C02
